@@ -120,6 +120,12 @@ CLAIMED = {
             'before clearSearch() under the same predicate that guards get-model and is forwarded to every scheduled solver; model queries throw outside the sat state. '
             'Whether the computed values are right is not decided.',
             'static analysis: ordering (MUST-PRECEDE), who-writes/who-reads and guard rules over the type-checked AST', ''),
+    'C16': ('other',
+            'Static, narrow: every GMP string conversion of a numeric literal uses base 10 explicitly (literal, or a base parameter all of whose call sites pass 10); '
+            'ArithLogic::mkConst builds a number only from text validated by isIntString (rejecting branch) or produced by stringToRational, which throws on malformed text; '
+            'every pass of the literal scanner starts from constant scanner state and counters; numbers are printed through exact GMP conversion. The digit-counting '
+            'arithmetic inside the scanner passes and the printed values themselves are value-level and not decided.',
+            'static analysis: forbidden-argument rule with call-site resolution, validation-dominance rule, pass-initialisation (reaching-constant) rule on the scanner', ''),
 }
 
 NOT_APPLICABLE = {
